@@ -311,6 +311,16 @@ def run(tier, seed, replay=None):
     judge(ck, smuts, sres, [dict(x, kind=m['kind'], what=m['what']) for (_, x), m in zip(svs, smuts)], 'scope-violation')
     ck.extra_cov['scope_violation_programs'] = len(svs)
 
+    # ---- generic calls whose lambda argument conflicts with a type parameter fixed elsewhere
+    from gen.progs import infer_violation_programs
+    ivs = []
+    for rep in range(3 if tier == 'quick' else 20):
+        ivs += infer_violation_programs(svr.fork())
+    ires = par_jobs([{'id': i, 'sources': x['sources'], 'entries': ['Main'], 'compile': True} for i, (_, x) in enumerate(ivs)])
+    imuts = [{'module': 'Main', 'kind': 'arg-type:infer:' + k, 'what': 'lambda argument conflicts with a fixed type parameter (%s)' % k,
+              'site': [0, 0], 'edit': x['sources']['Main'][-300:]} for k, x in ivs]
+    judge(ck, imuts, ires, [dict(x, kind=m['kind'], what=m['what']) for (_, x), m in zip(ivs, imuts)], 'infer-violation')
+
     # ---- private members of M.A reached from an unrelated class also named A
     snp, control = faults.same_name_private_programs()
     sres2 = par_jobs([{'id': i, 'sources': x['sources'], 'entries': ['Main'], 'compile': True} for i, (_, x) in enumerate(snp)]
